@@ -316,15 +316,21 @@ def bernoulli_zeta(n):
     return Fraction(sign * c, q)
 
 
+_bern_memo = {}
+
+
 def bernoulli(n):
     """exact B_n: tangent numbers up to a size where they are cheap, else the zeta route"""
     if n < 2 or n & 1:
         return bernoulli_tangent(n)
     if n // 2 <= max(_tangent.N, 420):
         return bernoulli_tangent(n)
-    v = bernoulli_zeta(n)
+    v = _bern_memo.get(n)
     if v is None:
-        return bernoulli_tangent(n)
+        v = bernoulli_zeta(n)
+        if v is None:
+            v = bernoulli_tangent(n)
+        _bern_memo[n] = v
     return v
 
 
